@@ -28,7 +28,7 @@ structure RCol where
   deriving Repr, DecidableEq, Inhabited
 
 structure RObj where
-  sig : Nat               -- type, name, comment, actions
+  sig : Nat               -- type, name, actions (not the comment)
   cols : List RCol        -- col1 ++ col2 (lengths are part of `sig`)
   inDb : Bool := false
   deriving Repr, DecidableEq, Inhabited
